@@ -134,7 +134,8 @@ func checkC16(c C16Case) (nontrivial bool, v *Violation) {
 		return false, pv
 	}
 	shared := config.DeviceConfig{ConfigFile: "verif.toml", ConfigType: "user", Config: cfg} // one value, shared maps
-	newRaceReports()                                                                         // discard anything older
+	_, cfgBefore := hashJSON(viewFromConfig(&cfg))
+	newRaceReports() // discard anything older
 	curRun.Inflight(c)
 	defer curRun.InflightDone()
 
@@ -204,6 +205,13 @@ func checkC16(c C16Case) (nontrivial bool, v *Violation) {
 			}
 			m := NewModel(c.D)
 			for _, s := range c.Hist[i] {
+				if s.T == "abs" {
+					if err := ld.abs(s.Code, s.Val); err != nil {
+						res[i].problem = violation("C16", "stuck", "", "device %d: %v\n%s", i, err, firstLines(allStacks(), 60))
+						return
+					}
+					continue
+				}
 				m.Key("", s.Code, s.Val)
 				if err := ld.key(s.Code, s.Val); err != nil {
 					res[i].problem = violation("C16", "stuck", "", "device %d: %v\n%s", i, err, firstLines(allStacks(), 60))
@@ -246,6 +254,11 @@ func checkC16(c C16Case) (nontrivial bool, v *Violation) {
 		if res[i].problem != nil {
 			return true, res[i].problem
 		}
+	}
+	// (0) the configuration value the devices share (maps by reference, as in the manager) is read-only for them
+	if _, cfgAfter := hashJSON(viewFromConfig(&cfg)); string(cfgAfter) != string(cfgBefore) {
+		return true, violation("C16", "shared-config-modified", "", "the DeviceConfig shared by the %d devices was modified while they ran: what one device does can change another's behaviour\nbefore: %s\nafter:  %s",
+			n, clip(string(cfgBefore), 1500), clip(string(cfgAfter), 1500))
 	}
 	// (1) races
 	time.Sleep(5 * time.Millisecond)
@@ -295,7 +308,7 @@ func checkC16(c C16Case) (nontrivial bool, v *Violation) {
 	for i := range res {
 		steps := make([]Step, len(c.Hist[i]))
 		for k, s := range c.Hist[i] {
-			steps[k] = Step{T: "key", Code: s.Code, Val: s.Val}
+			steps[k] = Step{T: s.T, Code: s.Code, Val: s.Val}
 		}
 		solo := RunDevice(cfg, c.D, steps, EngineOpts{NoLogs: true})
 		var want [][]byte
@@ -321,6 +334,13 @@ func checkC16(c C16Case) (nontrivial bool, v *Violation) {
 func genC16(t *rapid.T) C16Case {
 	base := genC17(t) // description + LED layout
 	c := C16Case{D: base.D, LEDs: base.LEDs}
+	// two controller axes in every mapping: one relies on the sub-handler's default deadzone, one has its own entry
+	for mi := range c.D.Mappings {
+		m := &c.D.Mappings[mi]
+		m.AnalogSubs = []AnalogSub{{Sub: "", Default: floatp(0.1)}}
+		m.Axes = []AxisDef{{Code: 0, Type: "cc", CC: intp(20), Min: -128, Max: 127},
+			{Code: 1, Type: "cc", CC: intp(21), CCNeg: intp(22), Min: 0, Max: 255, Center: boolp(true), Deadzone: floatp(0.05)}}
+	}
 	n := rapid.IntRange(1, 4).Draw(t, "devices")
 	for i := 0; i < n; i++ {
 		h := newHistState(c.D)
@@ -343,6 +363,13 @@ func genC16(t *rapid.T) C16Case {
 		var hs []LedStep
 		for _, s := range boundTransposition(c.D, h.steps) {
 			hs = append(hs, LedStep{T: "key", Code: s.Code, Val: s.Val})
+			if rapid.IntRange(0, 4).Draw(t, "axisEvent") == 0 { // stick movement between the key events
+				if rapid.Bool().Draw(t, "whichAxis") {
+					hs = append(hs, LedStep{T: "abs", Code: 0, Val: int32(rapid.IntRange(-128, 127).Draw(t, "abs0"))})
+				} else {
+					hs = append(hs, LedStep{T: "abs", Code: 1, Val: int32(rapid.IntRange(0, 255).Draw(t, "abs1"))})
+				}
+			}
 		}
 		c.Hist = append(c.Hist, hs)
 		c.Phase = append(c.Phase, rapid.SampledFrom([]string{"before-connect", "during-discovery", "running", "running", "between-frames", "after-key", "after-key"}).Draw(t, "phase"))
